@@ -7,7 +7,7 @@
                                  /\ I3 (the stored _psd is inherited along every listing edge)
                                  /\ W  (containers list layers; exactly the allocated ids occur; no cycle flag).
    No cycle can be expressed in the forest: "no group is its own ancestor" is I2 on rose trees. *)
-From PsdV Require Import Base.Prelude Edit.Model Edit.Corr Edit.Inv Edit.Forest Edit.ProofsInv Edit.ProofsTree.
+From PsdV Require Import Base.Prelude Edit.Model Edit.Corr Edit.Inv Edit.Forest Edit.ProofsInv Edit.ProofsTree Edit.ProofsRefuse.
 Open Scope Z_scope.
 
 (* ---------------------------------------------------------------- the invariant, for all states and operations *)
@@ -64,6 +64,34 @@ Theorem find_visits_once : forall s g x, Inv s -> quiet s ->
   count_z x (descendants s g) = if memz x (ids_l (kids_of s g)) then 1 else 0.
 Proof. exact find_once. Qed.
 Print Assumptions find_visits_once.
+
+(* ---------------------------------------------------------------- refused operations *)
+(* [same_tree s s']: forest, allocation and every stored field except bbox caches and the dirty flag agree.
+   An operation of the list protocol (append, extend, insert, item assignment / deletion, remove, pop),
+   delete_layer, a setter or a read-only operation that answers an error -- AssertionError for the group
+   itself / a non-layer / a reference loop, IndexError, ValueError, AttributeError -- leaves the tree
+   unchanged, from ANY state (no invariant needed).  The side condition excludes exactly the class of
+   extend_self_refuted (the list cycle).  refused_unchanged_partial: for move_to_group the three
+   refusals the property names are covered by the second theorem; that move_up / move_to_group cannot
+   fail after their remove step, and group_layers (which can: F-C10-4), are left to the oracle. *)
+Theorem refused_unchanged : forall s o c,
+  early_refusing o = true -> snd (step s o) = Fail c -> corrupt (fst (step s o)) = corrupt s ->
+  same_tree s (fst (step s o)).
+Proof. exact refused_unchanged_l. Qed.
+Print Assumptions refused_unchanged.
+
+Theorem move_into_self_or_descendant_refused : forall s x g,
+  corrupt s = false -> is_layer s x = true ->
+  (is_container s g = false \/ g = x \/ (kind s x = KGroup /\ In g (descendants s x))) ->
+  (exists c, snd (step s (MoveToGroup x g)) = Fail c) /\ same_tree s (fst (step s (MoveToGroup x g))).
+Proof. exact move_to_group_refused_unchanged. Qed.
+Print Assumptions move_into_self_or_descendant_refused.
+
+Example refusal_example :
+  let s := run (empty_state_v cfg_now) init1 in
+  snd (step s (MoveToGroup 1 2)) = Fail E_ASSERT /\ snd (step s (Insert 2 0 1)) = Fail E_ASSERT
+  /\ snd (step s (Pop 2 5)) = Fail E_INDEX.
+Proof. repeat split; vm_compute; reflexivity. Qed.
 
 (* ---------------------------------------------------------------- what the faithful model refutes *)
 (* each witness is replayed on the real code by harness/vh/c10.py; variants: cfg0 = the pinned tree *)
